@@ -271,7 +271,7 @@ def run_reconcile_property(ctx, depth, pid, pi, monitor, cmp_outcome=False, twea
     n = sizes[0] if quick else sizes[1]
     base = []
     while len(base) < n:
-        sc = gen.gen_snapshot(rng)
+        sc = gen.gen_rollout(rng) if len(base) % 2 == 1 else gen.gen_snapshot(rng)
         if tweak:
             sc = tweak(rng, sc)
         if sc is None or (keep and not keep(sc)):
@@ -306,6 +306,16 @@ def run_reconcile_property(ctx, depth, pid, pi, monitor, cmp_outcome=False, twea
             ctx.violations.append({"family": pid + "/reconcile", "input": sc, "observed": obs, "clauses": bad,
                                    "signature": {"kind": pid, "clause": bad[0][:40]}})
         writes = [c for c in obs["calls"] if c["verb"] not in ("list", "get")]
+        if sn.ok and not faulty:
+            for i, c in enumerate(obs["calls"]):
+                if c["res"] == "pods" and c["verb"] == "delete":
+                    ctx.count("branch:delete-" + str(monitors.classify_delete(sn, i, c)))
+                elif c["res"] == "pods" and c["verb"] in ("create", "update", "patch"):
+                    ctx.count("branch:" + c["verb"] + "-pod")
+                elif c["res"] == "controllerrevisions" and c["verb"] != "list":
+                    ctx.count("branch:" + c["verb"] + "-revision")
+                elif c["res"] == "statefulsets" and c["verb"] == "update":
+                    ctx.count("branch:status-write")
         if writes:
             ctx.nontriv([sc["api"], sc["cache"], sc["ops"]])
     ctx.sample({"family": "snapshot", "cache_set": base[0]["cache"]["set"], "cache_pods": [p["name"] + ":" + p["phase"] for p in base[0]["cache"]["pods"]],
